@@ -90,3 +90,36 @@ Print Assumptions C14_bitsem_tsem_land_short_circuit.
 Theorem C14_bitsem_tsem_lor_short_circuit : ltac:(let T := type of tsem_lor_short_circuit in exact T).
 Proof. exact tsem_lor_short_circuit. Qed.
 Print Assumptions C14_bitsem_tsem_lor_short_circuit.
+
+(* Array indexing and accessor writes in the bit-level semantics (Compile/TSemArray.v): a read
+   through the mux tree returns exactly element I (any length, not only powers of two), a write
+   replaces exactly element I and nothing else, an out-of-bounds index leaves the array unchanged
+   and records OutOfBounds; a tuple / struct field read or write touches exactly that field. *)
+From GV Require Import Compile.TSemArray.
+Theorem C14_bitsem_tsem_array_read : ltac:(let T := type of tsem_array_read in exact T).
+Proof. exact tsem_array_read. Qed.
+Print Assumptions C14_bitsem_tsem_array_read.
+Theorem C14_bitsem_tsem_array_write : ltac:(let T := type of tsem_array_write in exact T).
+Proof. exact tsem_array_write. Qed.
+Print Assumptions C14_bitsem_tsem_array_write.
+Theorem C14_bitsem_tsem_array_write_in_bounds : ltac:(let T := type of tsem_array_write_in_bounds in exact T).
+Proof. exact tsem_array_write_in_bounds. Qed.
+Print Assumptions C14_bitsem_tsem_array_write_in_bounds.
+Theorem C14_bitsem_tsem_array_write_out_of_bounds : ltac:(let T := type of tsem_array_write_out_of_bounds in exact T).
+Proof. exact tsem_array_write_out_of_bounds. Qed.
+Print Assumptions C14_bitsem_tsem_array_write_out_of_bounds.
+Theorem C14_bitsem_tsem_array_read_after_write : ltac:(let T := type of tsem_array_read_after_write in exact T).
+Proof. exact tsem_array_read_after_write. Qed.
+Print Assumptions C14_bitsem_tsem_array_read_after_write.
+Theorem C14_bitsem_slice_field : ltac:(let T := type of slice_field in exact T).
+Proof. exact slice_field. Qed.
+Print Assumptions C14_bitsem_slice_field.
+Theorem C14_bitsem_splice_field : ltac:(let T := type of splice_field in exact T).
+Proof. exact splice_field. Qed.
+Print Assumptions C14_bitsem_splice_field.
+Theorem C14_bitsem_slice_splice_same : ltac:(let T := type of slice_splice_same in exact T).
+Proof. exact slice_splice_same. Qed.
+Print Assumptions C14_bitsem_slice_splice_same.
+Theorem C14_bitsem_slice_splice_other : ltac:(let T := type of slice_splice_other in exact T).
+Proof. exact slice_splice_other. Qed.
+Print Assumptions C14_bitsem_slice_splice_other.
